@@ -29,7 +29,12 @@ def run(ctx, report):
     report.section("WebVTT text", webvtt_text, ctx, report)
     report.section("blank lines", blank_lines, ctx, report)
     report.section("no text loss", no_text_loss, ctx, report)
-    report.not_decided += ["what a conformant XML/HTML/WebVTT/SRT parser makes of the output (no parser is run)",
+    from . import writer_doc_fold
+    report.section("written documents", writer_doc_fold.run, ctx, report, ("cues", "grammar", "text"),
+                   {"cues": "2", "grammar": "2", "text": "1"},
+                   {"cues": "R-DOC-CUES", "text": "R-DOC-TEXT", "grammar": "R-DOC-GRAMMAR"})
+    report.not_decided += ["what a conformant XML/HTML parser makes of the DFXP/SAMI output (no parser is run; the SRT, "
+                           "WebVTT and MicroDVD writers are folded on small caption sets and read back by reference parsers)",
                            "text whose own characters are line terminators; whitespace normalisation"]
     report.assume("xml.sax.saxutils.escape replaces & < >; bs4 formatter=None substitutes nothing")
 
